@@ -42,6 +42,17 @@ PROPS = {
 }
 
 
+COMMON_PROBES = ["sparse_edits_without_reports", "file_built_components", "restart_replaced_sut", "pristine_twin_compares"]
+for _k, _v in PROPS.items():
+    if _k != "C13":
+        _v["probes"] = list(_v.get("probes", [])) + [p for p in COMMON_PROBES if p not in _v.get("probes", []) and not (p == "restart_replaced_sut" and _k in ("C16", "C17", "C03", "C04", "C05", "C18")) and not (p == "pristine_twin_compares" and _k not in ("C15", "C17"))]
+PROPS["C12"]["probes"] += ["mux_inputs_collapsed"]
+PROPS["C16"]["probes"] += ["mux_inputs_collapsed", "c16_report_checks"]
+PROPS["C05"]["probes"] += ["mux_patterns_visited"]
+PROPS["C18"]["probes"] += ["c18_logs_checked", "c18_nontrivial", "c18_clock_pairs", "c18_non_source"]
+PROPS["C19"]["probes"] += ["c19_renders_checked", "c19_real_dot_renders", "c19_heat_3_losses"]
+PROPS["C17"]["probes"] += ["peer_exception_at_k", "peer_keyboard_interrupt", "peer_system_exit"]
+
 # evaluations = the number of judged cases of the property (a measured counter),
 # sessions are reported separately
 CASE_COUNTER = {
